@@ -366,7 +366,9 @@ func (s *Script) standalone(idx int, qf bool) string {
 		case ItemDef, ItemAssume:
 			b.WriteString("(assert " + it.Term + ")\n")
 		case ItemOblig:
-			if !it.Ob.Cover {
+			// postconditions are independent claims about the same return state: they are not
+			// assumed for one another (a failing clause must not mask the next one)
+			if !it.Ob.Cover && it.Ob.Kind != "post" && !isKnownFailing(it.Ob) {
 				b.WriteString("(assert " + Implies(it.Guard, it.Term) + ")\n")
 			}
 		}
@@ -397,7 +399,7 @@ func (s *Script) Incremental() string {
 				b.WriteString("(assert " + And(it.Guard, Not(it.Term)) + ")\n")
 			}
 			b.WriteString("(check-sat)\n(pop 1)\n")
-			if !it.Ob.Cover {
+			if !it.Ob.Cover && it.Ob.Kind != "post" && !isKnownFailing(it.Ob) {
 				b.WriteString("(assert " + Implies(it.Guard, it.Term) + ")\n")
 			}
 		}
@@ -422,4 +424,13 @@ func sortedKeys[V any](m map[string]V) []string {
 	}
 	sort.Strings(ks)
 	return ks
+}
+
+// isKnownFailing: the obligation is a recorded known finding (by name), or the initiation of a loop
+// invariant clause recorded as such (also when the function is inlined into another root).
+func isKnownFailing(ob *Oblig) bool {
+	if knownFailing[ob.Name] {
+		return true
+	}
+	return ob.Kind == "inv-init" && knownLoopInv[ob.InFunc+"|"+ob.Label]
 }
